@@ -44,6 +44,20 @@ Theorem link_redef_rejected : forall (h : list op) (ds : list decl) (m : modl),
 Proof. exact link_redef_rejected_proof. Qed.
 Print Assumptions link_redef_rejected.
 
+(* The property's third clause, literally: once an earlier successful load exported a FUNCTION named
+   n, loading a module that exports a function named n is rejected with repeated_decl iff
+   redefinition is not permitted, and is accepted when it is. *)
+Theorem second_function_export_rejected : forall (h : list op) (ds : list decl) (m : modl) n k i it,
+  let s := fst (run h) in
+  let tr := snd (run h) in
+  dead s = false -> build ds = inl m ->
+  In (n, DMod k i KFunc) (pubs tr) ->
+  In it (mitems m) -> ik it = KFunc -> iexp it = true -> iname it = n ->
+  (snd (step s (Load ds)) = OErr ERepeatedDecl <-> redef_of tr = false) /\
+  (redef_of tr = true -> snd (step s (Load ds)) = OOk).
+Proof. exact second_function_export_proof. Qed.
+Print Assumptions second_function_export_rejected.
+
 (* Bindings recorded for modules linked earlier are never changed by anything that follows. *)
 Theorem link_earlier_bindings_stable : forall (h later : list op),
   exists ext, linked (fst (run (h ++ later))) = linked (fst (run h)) ++ ext.
